@@ -161,7 +161,9 @@ def matrix():
 if __name__ == '__main__':
     cmd = sys.argv[1]
     if cmd == 'verify':
-        print(json.dumps(verify(sys.argv[2], full='--full' in sys.argv), indent=1))
+        r = verify(sys.argv[2], full='--full' in sys.argv)
+        print(json.dumps(r, indent=1))
+        print('VERIFY %s %s' % (sys.argv[2], json.dumps({k: (v if not isinstance(v, dict) else {'rc': v.get('rc'), 'fails': v.get('fails')}) for k, v in r.items()})))
     elif cmd == 'detect':
         args = [a for a in sys.argv[3:] if not a.startswith('--')]
         tier = 'thorough' if '--thorough' in sys.argv else 'quick'
